@@ -455,7 +455,7 @@ def run(tier):
         n_groups = 60 * scale
         for gi in range(n_groups):
             evaluations += 1
-            size = rng.choice([1, 2, 4, 6, 10, 50])
+            size = (1, 2, 3, 4, 5, 6, 10, 50)[gi % 8] if gi < 32 else rng.choice([1, 2, 3, 4, 5, 6, 10, 50])
             start = rng.randrange(0, n_g - size)
             sel = list(range(start, start + size))
             kind = SHAPES[gi % len(SHAPES)]
@@ -488,6 +488,13 @@ def run(tier):
                 out = G.wgs_84_norm(arg)
                 if numpy.shape(out) != shp:
                     fail('shape', f'wgs_84_norm: input shape {shp} ({kind}) gives output shape {numpy.shape(out)}', case)
+                elif kind != 'empty':
+                    # batch independence: the normals of a batch are the normals of its points taken one at a time
+                    pts_b = ecf[sel][:1] if kind == 'single' else ecf[sel]
+                    one = numpy.array([G.wgs_84_norm(numpy.array(p_, dtype='float64')) for p_ in pts_b])
+                    if flat(out).shape != one.shape or not float(numpy.abs(flat(out) - one).max()) <= 1e-12:
+                        fail('normal-batch', f'wgs_84_norm of a batch of {len(pts_b)} points (shape {kind}) differs from the points taken one at a time by '
+                                             f'{float(numpy.abs(flat(out) - one).max()):.3e}', case)
             except Exception as ex:
                 fail('variant-raises', f'shape {kind} / ordering {order}: raised {type(ex).__name__}: {ex}', case)
         # a last dimension other than 3 is refused
